@@ -343,8 +343,14 @@ func (state *RuntimeState) u2fSignResponse(w http.ResponseWriter, r *http.Reques
 		http.Error(w, "registration missing", http.StatusBadRequest)
 		return
 	}
+	// The challenge is one-time: the request that presents an answer takes it
+	// out of the shared map, so that the same answer presented again (even at
+	// the same moment) finds none.
 	state.Mutex.Lock()
 	localAuth, ok := state.localAuthData[authData.Username]
+	if ok {
+		delete(state.localAuthData, authData.Username)
+	}
 	state.Mutex.Unlock()
 	if !ok {
 		http.Error(w, "challenge missing", http.StatusBadRequest)
@@ -367,9 +373,6 @@ func (state *RuntimeState) u2fSignResponse(w http.ResponseWriter, r *http.Reques
 			u2fReg.Counter = newCounter
 			profile.U2fAuthData[i] = u2fReg
 			//profile.U2fAuthChallenge = nil
-			state.Mutex.Lock()
-			delete(state.localAuthData, authData.Username)
-			state.Mutex.Unlock()
 
 			eventNotifier.PublishAuthEvent(eventmon.AuthTypeU2F, authData.Username)
 			_, isXHR := r.Header["X-Requested-With"]
@@ -403,9 +406,6 @@ func (state *RuntimeState) u2fSignResponse(w http.ResponseWriter, r *http.Reques
 		if authErr == nil {
 			metricLogAuthOperation(getClientType(r), proto.AuthTypeU2F, true)
 			logger.Debugf(0, "newCounter: %d", newCounter)
-			state.Mutex.Lock()
-			delete(state.localAuthData, authData.Username)
-			state.Mutex.Unlock()
 			eventNotifier.PublishAuthEvent(eventmon.AuthTypeU2F, authData.Username)
 			_, isXHR := r.Header["X-Requested-With"]
 			if isXHR {
